@@ -121,7 +121,7 @@ Definition spec_wcol (labels : list Z) (col w : list Q) : list Q :=
 End BlockReduce.
 
 (** ** executable instances *)
-Inductive redop := RMean | RMedian | RSum | RMin | RAverage.
+Inductive redop := RMean | RMedian | RSum | RMin | RAverage | RMax.
 
 Definition red_of (r : redop) : list Q -> Q :=
   match r with
@@ -129,6 +129,7 @@ Definition red_of (r : redop) : list Q -> Q :=
   | RMedian => qmedian
   | RSum => qsum
   | RMin => qmin
+  | RMax => qmax
   end.
 
 (** only numpy.average takes weights; the harness gives weights with it only *)
